@@ -103,3 +103,6 @@ Proof.
   - apply negb_true_iff. destruct (Qle_bool (Qabs (q - inject_Z b)) eps) eqn:K; [|reflexivity].
     apply Qle_bool_iff in K. exfalso. apply (Qlt_not_le _ _ H K).
 Qed.
+
+Lemma soft_dibit_unfold : forall v : Z * Z, soft_dibit v = ((0 <? fst v)%Z, (0 <? snd v)%Z).
+Proof. reflexivity. Qed.
